@@ -658,13 +658,14 @@ def conclude(ctx):
     replay_path = None
     if unlisted:
         os.makedirs(os.path.join(vp.ROOT, 'replays'), exist_ok=True)
-        replay_path = os.path.join(vp.ROOT, 'replays', f'{ctx.pid}-{ctx.tier}-{vp.seed()}.ndjson')
+        replay_path = os.path.join(vp.ROOT, 'replays', f'{ctx.pid}-{ctx.tier}-{vp.seed()}' + ('-replayed' if getattr(ctx, 'replay_mode', False) else '') + '.ndjson')
         with open(replay_path, 'w') as f:
             for aspect, detail in unlisted[:200]:
                 f.write(json.dumps({'aspect': aspect, 'detail': detail}) + '\n')
         rc = 1
-    vp.write_evidence(ctx.pid, ctx.tier, coverage, ctx.assumptions or DEFAULT_ASSUMPTIONS, time.time() - ctx.t0,
-                      len(unlisted))
+    if not getattr(ctx, 'replay_mode', False):
+        vp.write_evidence(ctx.pid, ctx.tier, coverage, ctx.assumptions or DEFAULT_ASSUMPTIONS, time.time() - ctx.t0,
+                          len(unlisted))
     if rc:
         a, d = unlisted[0]
         what = d.get('what', '') if isinstance(d, dict) else ''
@@ -684,9 +685,11 @@ DEFAULT_ASSUMPTIONS = [
 
 
 def run_replay(ctx, path):
-    """Re-run the vectors / traces stored in a replay file."""
+    """Re-run the vectors stored in a replay file against the current tree; recorded traces (impl -> spec
+    violations) are re-validated against their trace specification."""
+    ctx.replay_mode = True      # a replay run does not rewrite the evidence file
     vectors = os.path.join(ctx.workdir(), 'replay_vectors.ndjson')
-    n = 0
+    n, traces = 0, []
     with open(path) as f, open(vectors, 'w') as g:
         for line in f:
             rec = json.loads(line)
@@ -695,7 +698,33 @@ def run_replay(ctx, path):
             if v is not None:
                 g.write(json.dumps(v) + '\n')
                 n += 1
-    if n == 0:
-        raise ToolError('replay file contains no replayable vector')
-    ctx.replay([vectors], [ctx.pid + '.'], label='replay_file')
+            elif d.get('trace_prefix') and d.get('trace_module') and os.path.exists(d['trace_prefix']):
+                traces.append((rec['aspect'], d))
+            elif d.get('event') is not None and d.get('event_kind'):
+                # a single self-contained recorded event: validate it alone
+                p = os.path.join(ctx.workdir(), f'replay_event_{len(traces)}.ndjson')
+                open(p, 'w').write(json.dumps(d['event']) + '\n')
+                module = {'typed': 'TraceSerde', 'value_ser': 'TraceSerde', 'value_de': 'TraceSerde', 'text_de': 'TraceSerde', 'sj_rt': 'TraceSerde',
+                          'js_rt': 'TraceSerde', 'nav': 'TraceNav', 'conv': 'TraceNav', 'macro': 'TraceMacro', 'canon': 'TraceCanon',
+                          'rewrite': 'TraceCanon'}.get(d['event_kind'])
+                if module:
+                    traces.append((rec['aspect'], dict(d, trace_prefix=p, trace_module=module)))
+    if n == 0 and not traces:
+        raise ToolError('replay file contains nothing replayable')
+    if n:
+        ctx.replay([vectors], [ctx.pid + '.'], label='replay_file')
+    for i, (aspect, d) in enumerate(traces[:20]):
+        mod = f'---- MODULE TRI_replay{i} ----\nEXTENDS {d["trace_module"]}\n====\n'
+        cfg = 'SPECIFICATION TrSpec\nINVARIANT Result\nCHECK_DEADLOCK FALSE\n'
+        r = vp.tlc(f'{ctx.pid}_replay{i}', mod, cfg, workers=1, cache=False, env={'TRACE': d['trace_prefix']}, timeout=900)
+        res = None
+        for line in vp.tlc_lines(r['out'], '"{'):
+            rec = vp.unquote_tlc(line)
+            if rec.get('k') == 'trace_result':
+                res = rec
+        rejected = bool(res and (res.get('bad') or res.get('bad2')))
+        ctx.traces.append({'label': f'replay{i}', 'events': res['events'] if res else 0, 'validated': 0 if rejected else 1, 'rejected': int(rejected),
+                           'wall_s': r['wall_s'], 'distinct': 1, 'mismatch_counts': {aspect: 1} if rejected else {}})
+        if rejected:
+            ctx.mismatches.append((aspect, dict(d, what=d.get('what', '') + ' (recorded behaviour re-validated: still rejected by the trace specification)')))
     return conclude(ctx)
